@@ -304,6 +304,12 @@ impl ShmWrite for ShmWriter {
             };
             generation.store(gen, atomic::Ordering::Release);
 
+            // The release store above does not keep the following (non-atomic) writes to the
+            // record from becoming visible before the odd generation. A release fence does: a
+            // reader that observes any of the new record data is then guaranteed to also observe
+            // the odd generation (or a later one) when it re-checks it.
+            atomic::fence(atomic::Ordering::Release);
+
             #[cfg(not(clockbound_verif))]
             self.ceb.write(*ceb);
             #[cfg(clockbound_verif)]
